@@ -487,17 +487,19 @@ type multiCfg struct {
 	npend  int  // counters with pending values, registered
 	nfresh int  // counters whose first Add runs in the managed phase
 	extra  int  // further Adds on random counters
+	twice  bool // a second goroutine's Add on each fresh counter (it finds the counter claimed)
 	pl     *plan
 }
 
 func multi() {
-	multiRun(multiCfg{full: true, npend: 2 + rnd.Intn(3), nfresh: rnd.Intn(3), extra: 1 + rnd.Intn(2)})
+	multiRun(multiCfg{full: rnd.Chance(70), npend: 2 + rnd.Intn(3), nfresh: rnd.Intn(3), extra: 1 + rnd.Intn(2), twice: rnd.Chance(40)})
 }
 
 // multiSystematic: every schedule with at most k forced context switches of two
 // small configurations (an open racing with the first Add of a fresh counter).
 func multiSystematic(k int) {
-	for _, base := range []multiCfg{{full: false, npend: 1, nfresh: 1}, {full: true, npend: 1, nfresh: 1}} {
+	for _, base := range []multiCfg{{full: false, npend: 1, nfresh: 1}, {full: true, npend: 1, nfresh: 1},
+		{full: false, npend: 0, nfresh: 1, twice: true}, {full: false, npend: 1, nfresh: 1, twice: true}} {
 		c := base
 		c.pl = &plan{}
 		maxSteps := multiRun(c)
@@ -507,7 +509,7 @@ func multiSystematic(k int) {
 				return
 			}
 			for at := from; at <= maxSteps+2; at++ {
-				for to := 0; to < 2; to++ {
+				for to := 0; to < 3; to++ {
 					p2 := plan{append(append([]int{}, pl.at...), at), append(append([]int{}, pl.to...), to)}
 					c := base
 					c.pl = &p2
@@ -587,6 +589,14 @@ func multiRun(cfg multiCfg) int {
 			ths = append(ths, th{func() { cs[i].Add(int64(k)) }})
 		}
 	}
+	if cfg.twice {
+		nf := len(ths)
+		for k := 0; k < nf; k++ {
+			i := len(cs) - nf + k
+			want[i] += 2
+			ths = append(ths, th{func() { cs[i].Add(2) }})
+		}
+	}
 	ths = append(ths, th{func() { f.Rotate1() }})
 	for j := 0; j < cfg.extra; j++ {
 		i := rnd.Intn(nc)
@@ -625,6 +635,17 @@ func multiRun(cfg multiCfg) int {
 			i = cand[0]
 			if last >= 0 && (tids[last] < 0 || !s.Done(tids[last])) {
 				i = last
+			} else if last >= 0 {
+				// the running thread finished: go on with the next unfinished one
+				// after it, cyclically (so that "A partly, B fully, C fully, rest
+				// of A" is a schedule with ONE forced switch)
+				for d := 1; d <= len(ths); d++ {
+					j := (last + d) % len(ths)
+					if tids[j] < 0 || !s.Done(tids[j]) {
+						i = j
+						break
+					}
+				}
 			}
 			for k, at := range cfg.pl.at {
 				if at == nsteps {
